@@ -34,7 +34,7 @@ def cases(rng, tier):
     for n in range(1, 5):
         for tup in itertools.product([b"a", b"b"], repeat=n):
             pool.append(list(tup))
-    extra = [[b"x", b"local"], [b"LOCAL"], [b"LoCaL"], [b"local", b"x"], [b"locale"], [b"loca"], [b"\xff", b"local"], [b"a", b"Local"]]
+    extra = [[b"living-room-speaker1", b"local"], [b"_srv", b"_tcp", b"local"], [b"a" * 63], [b"b", b"a" * 63], [b"x", b"local"], [b"LOCAL"], [b"LoCaL"], [b"local", b"x"], [b"locale"], [b"loca"], [b"\xff", b"local"], [b"a", b"Local"]]
     pool2 = pool + extra
     for a in pool2:
         for b in pool2:
